@@ -529,16 +529,8 @@ func Conds(fn *ssa.Function) []Cond {
 		if !ok {
 			continue
 		}
-		v := ifi.Cond
-		neg := false
-		for {
-			if u, ok := v.(*ssa.UnOp); ok && u.Op == token.NOT {
-				v = u.X
-				neg = !neg
-				continue
-			}
-			break
-		}
+		// negations and comparisons with boolean constants (`x == false`, `x != true`) are folded into Neg
+		v, neg := condRoot(ifi.Cond)
 		out = append(out, Cond{If: ifi, V: v, Neg: neg})
 	}
 	return out
@@ -562,7 +554,46 @@ func PassEdges(fn *ssa.Function, g Guard) []Edge {
 	for _, c := range Conds(fn) {
 		ok, pt := g(c)
 		if !ok {
-			continue
+			// flag form: `f := false; if A { f = <cond> }; if f {…}` — the tested value is a phi whose
+			// only non-constant input is an instance of the guard and whose constant inputs all have the
+			// guard's failing value: the phi has the passing value only if <cond> had it
+			if phi, isPhi := c.V.(*ssa.Phi); isPhi {
+				var inst ssa.Value
+				nInst, constsOK := 0, true
+				var consts []bool
+				for _, e := range phi.Edges {
+					if k, isK := ConstBool(e); isK {
+						consts = append(consts, k)
+						continue
+					}
+					nInst++
+					inst = e
+				}
+				if nInst == 1 {
+					cv, neg := inst, false
+					for {
+						if u, isU := cv.(*ssa.UnOp); isU && u.Op == token.NOT {
+							cv, neg = u.X, !neg
+							continue
+						}
+						break
+					}
+					if ok2, pt2 := g(Cond{V: cv}); ok2 {
+						passVal := pt2 != neg // value of the phi input when the guard passes
+						for _, k := range consts {
+							if k == passVal {
+								constsOK = false
+							}
+						}
+						if constsOK {
+							ok, pt = true, passVal
+						}
+					}
+				}
+			}
+			if !ok {
+				continue
+			}
 		}
 		idx := c.FalseIdx()
 		if pt {
